@@ -67,7 +67,89 @@ def c02_filter(probs, res):
     return [p for p in probs if not (p[2] or "").startswith("c03.")]
 
 
+def record_layouts(d, hdr, names):
+    """clang's record layouts (bits): name -> (size, datasize, align)"""
+    import re
+    from ..core import run as sh, write
+    src = write(os.path.join(d, "lay.cpp"), '#include "%s"\n' % hdr + "".join('static_assert(sizeof(%s) > 0, "");\n' % n for n in names))
+    rc, so, se, _ = sh(["clang++", "-std=c++14", "-fsyntax-only", "-w", "-Xclang", "-fdump-record-layouts-simple", src], timeout=60)
+    out = {}
+    for m in re.finditer(r"Type: (?:struct|class|union) ([^\n]+)\n\nLayout: <ASTRecordLayout\n\s*Size:(\d+)\n\s*DataSize:(\d+)\n\s*Alignment:(\d+)", so):
+        out[m.group(1).strip()] = (int(m.group(2)), int(m.group(3)), int(m.group(4)))
+    return out
+
+
+CXX_OPTSETS = [("default", []), ("derives", ["--with-derive-default", "--with-derive-hash", "--with-derive-partialeq", "--with-derive-eq"]),
+               ("namespaces", ["--enable-cxx-namespaces"]), ("explicit-padding", ["--explicit-padding"]), ("no-vtable-no-methods", ["--ignore-methods"]),
+               ("vtable-generation", ["--vtable-generation"]), ("old-target", ["--rust-target", "1.70"]), ("opaque-by-default-off", ["--no-derive-copy"])]
+
+
+def cxx_case(chk, i):
+    """C++ class graphs (bases incl. multiple, vptr, virtual destructors, empty classes, templates instantiated with classes and builtins,
+    bit-fields, arrays): bindgen's layout assertions carry clang's numbers and rustc evaluates them against the Rust layout."""
+    import re
+    from .. import build, gen_graph
+    from ..core import run as sh, write
+    rng = chk.rng("cxx", i)
+    g = gen_graph.generate(rng, lang="cxx")
+    orders, _ = gen_graph.valid_orders(g, rng, 1)
+    d = chk.dir("x%d" % (i % 32))
+    text = gen_graph.render(g, orders[0], hoist=rng.random() < 0.5)
+    hdr = write(os.path.join(d, "g%d.hpp" % i), text)
+    names = [c.name for c in g.classes() if c.kind == "class"]
+    lay = None
+    out = []
+    for oname, flags in [CXX_OPTSETS[0]] + chk.rng("cxxopts", i).sample(CXX_OPTSETS[1:], chk.pick(1, 3)):
+        cname = "cxx-%d-%s" % (i, oname)
+        b = os.path.join(d, "b%d_%s.rs" % (i, oname))
+        rc, so, se, _ = sh([build.BINDGEN, hdr] + flags + ["-o", b, "--", "-x", "c++", "-std=c++14"], timeout=120, cpu=100)
+        if rc != 0:
+            out.append(Verdict(INCONCLUSIVE, cname, "bindgen failed: " + se[-300:]))
+            continue
+        btext = open(b).read()
+        rcr, sor, ser, _ = sh(["rustc", "--edition", "2021", "--crate-type", "lib", "--emit=metadata", "-A", "warnings", "-o", os.path.join(d, "m%d.rmeta" % i), b], timeout=180)
+        nassert = len(re.findall(r'\["(?:Size|Alignment) of [^"]+"\]|\["Offset of field: [^"]+"\]', btext))
+        obs = {"cxx_graphs_x_optsets": 1, "cxx_layout_assertions_evaluated": nassert, "cxx_classes": len(names),
+               "cxx_classes_with_bases": sum(1 for c in g.classes() if c.bases), "cxx_virtual_classes": sum(1 for c in g.classes() if c.attrs.get("virtual"))}
+        failing = sorted(set(re.findall(r'\["((?:Size|Alignment) of [^"]+|Offset of field: [^"]+)"\]', ser)))
+        others = [m for m in re.findall(r"^error(?:\[E\d+\])?: ([^\n]*)", ser, re.M) if "aborting" not in m and "index out of bounds" not in m and "attempt to compute" not in m
+                  and "evaluation of" not in m]
+        files = {"header.hpp": text, "flags.txt": " ".join(flags), "bindings.rs": btext, "rustc.txt": ser[-3000:]}
+        if failing:
+            # recorded limitation: a derived class may re-use the tail padding of a base that is not POD for layout purposes; bindgen
+            # embeds the base as a whole `_base` field.  Classified with clang's own record layouts (DataSize < Size somewhere below).
+            if lay is None:
+                lay = record_layouts(d, os.path.basename(hdr), names)
+
+            def tail_padded(cn, depth=0):
+                c = g.by_name(cn)
+                if c is None or depth > 8:
+                    return False
+                for b_ in c.bases:
+                    l_ = lay.get(b_)
+                    if (l_ and l_[1] < l_[0]) or tail_padded(b_, depth + 1):
+                        return True
+                # by-value members / template arguments of tainted classes carry the wrong size along
+                return any(tail_padded(x, depth + 1) for x in c.needs_complete if x != cn and g.by_name(x) is not None and g.by_name(x).kind == "class")
+            owners = set()
+            for a in failing:
+                o_ = a.split(" of ", 1)[1].replace("field: ", "").split("::")[0].strip()
+                owners.add(o_)
+            def owner_ok(o_):
+                if o_.startswith("template specialization: "):
+                    return any(tail_padded(cn) for cn in names if re.search(r"_%s_" % re.escape(cn), o_ + "_"))
+                return tail_padded(o_)
+            sig = "c02.cxx-base-tail-padding-reuse" if owners and all(owner_ok(o_) for o_ in owners) else None
+            out.append(Verdict(VIOLATED, cname, "layout assertions (clang's numbers) fail to evaluate against the Rust layout: %s" % failing[:8], files=files, obs=obs, signature=sig))
+        elif rcr != 0:
+            out.append(Verdict(HELD, cname, obs=dict(obs, cxx_compile_errors_deferred_to_C01=1)))
+        else:
+            out.append(Verdict(HELD, cname, obs=obs, nontrivial=nassert >= 4, key=cname))
+    return out
+
+
 def run(chk):
+    chk.map(lambda i: cxx_case(chk, i), range(chk.pick(40, 400)), budget_s=chk.pick(200, 1200))
     n = chk.pick(48, 400)
     n_opts = chk.pick(5, 10)
     cfg = CFG if chk.quick() else CFG_THOROUGH
@@ -77,7 +159,9 @@ def run(chk):
         rule="case = (generated C header, presentation option set); distinct = (structural hash of all records, option set); "
              "non-trivial = the header has >= 2 member paths and the C+Rust probe executable ran to completion, so sizes, "
              "alignments, offsets, member kinds/widths/signedness and values in both directions were actually compared "
-             "(counts under 'observed').",
+             "(counts under 'observed'). C++ case = (generated class graph: single and multiple bases, vptr, virtual destructors, templates "
+             "instantiated with classes and builtins, bit-fields, arrays; option set): every size / alignment / offset assertion bindgen emits "
+             "(clang's numbers) is evaluated by rustc against the Rust layout.",
         assumptions=["clang 14 (host x86_64) defines the C layout and values; rustc 1.95 defines the Rust layout",
                      "probe reads/writes members through raw pointers (read_unaligned/write_unaligned) and bindgen's accessors only",
                      "bit-fields inside unions are not generated by default (known finding C03 union-bitfield-unit)"])
